@@ -4,7 +4,7 @@ from common import *
 import build, certs, engine, probes, gen, cap as capmod
 import check_engine as ce
 
-CERT_NAMES = ['dfa_ok', 'sim_ok', 'exact_ok', 'wf_graph', 'prompt_ok', 'utf8_ok', 'utf8_strict_ok']
+CERT_NAMES = ['dfa_ok', 'sim_ok', 'exact_ok', 'wf_graph', 'prompt_ok', 'utf8_ok', 'utf8_strict_ok', 'prompt_strict_ok']
 
 
 def framework(res, theorems):
@@ -81,6 +81,8 @@ def cert_stage(res, tier, need, kernel_theorems, prop, extra_caps=()):
     for c in allcaps:
         r = ext.get(c.id or c.name)
         for i in idx:
+            if CERT_NAMES[i] == 'prompt_strict_ok' and any('(K ' in (l.get('hir') or '') for l in c.leaves):
+                continue      # the strict form is required of definitions without look-around assertions only
             ok = bool(r and r[i])
             res.oblige(ok)
             if not ok:
@@ -590,10 +592,10 @@ def check_C03(tier):
 
 def check_C07(tier):
     res = Result('C07', tier)
-    framework(res, ['C07_next_prefix_safe', 'C07_next_prefix_none', 'C07_determined_scan', 'C07_prompt_one_byte', 'C07_no_test_acts'])
+    framework(res, ['C07_next_prefix_safe', 'C07_next_prefix_none', 'C07_determined_scan', 'C07_prompt_one_byte', 'C07_prompt_strict', 'C07_no_test_acts'])
     fss = ['tc', 'sm']
     sets = ce.compiled_sets(tier, fss)
-    failing, drv = cert_stage(res, tier, ['dfa_ok', 'sim_ok', 'exact_ok', 'prompt_ok'], [], 'C07', curated_caps(sets, 'tc'))
+    failing, drv = cert_stage(res, tier, ['dfa_ok', 'sim_ok', 'exact_ok', 'prompt_ok', 'prompt_strict_ok'], [], 'C07', curated_caps(sets, 'tc'))
     for c, name in failing[:6]:
         res.violation(None, 'certificate %s fails for %s' % (name, c.id),
                       dict(definition=c.source, definition_id=c.id, no_longer_checks='certificate %s (promptness / exactness of partial lexing) for %s' % (name, c.id)),
@@ -1323,11 +1325,12 @@ def check_C12(tier):
             res.violation(None, '%s: str mode %s, utf8 = false %s (expected rejected / accepted)' % (c.name, c.outcome, t.outcome if t else None),
                           dict(definition=c.source), found_input=True)
     # the graph captured for a definition and for its `utf8 = false` twin are equal; the compiled twins agree
-    fss = ['tc']
+    # default build and the forbid_unsafe build (the two source modes must agree in both)
+    fss = ['tc', 'tcsafe']
     sets = ce.compiled_sets(tier, fss)
     rng = random.Random(seed() + 12)
     nbad = 0
-    for label, h, enums in sets:
+    for label, h, enums in [(l_, {'tc': h_[f_]}, e_) for l_, h_, e_ in sets for f_ in fss]:
         exe, caps = h['tc']
         pairs = [(en, en + 'B') for en in sorted(caps) if en + 'B' in caps and ce.usable(caps[en]) and ce.usable(caps[en + 'B'])]
         runs = []
@@ -1379,9 +1382,23 @@ def all_caps_with_dfa(tier, res, extra_files=()):
     return [c for c in list(repo_caps) + list(rand_caps) + list(extra) if c.panic is None and c.dfa and c.dfa.get('start') is not None and c.leaves]
 
 
-def independent_prios(c):
+def coq_default_prios(caps):
+    """Documented default priority of every pattern leaf: Regex.Re.complexity of the captured HIR, by vm_compute."""
+    import coqeval
+    exprs = []; idx = []
+    for c in caps:
+        for l in c.leaves:
+            if l['hir'] and l['hir'] != '-':
+                exprs.append('[complexity %s]' % capmod.coq_re(capmod.parse_sexpr(l['hir'])))
+                idx.append((id(c), l['idx']))
+    vals = coqeval.coq_eval(exprs, 'From LogosV Require Import Regex.Re.', 'cplx8', shard=max(50, len(exprs) // 16 + 1)) if exprs else []
+    return {k: v[0] for k, v in zip(idx, vals)}
+
+
+def independent_prios(c, coq_defaults=None):
     """Leaf priorities as the attributes state them (independent attribute scan): the explicit priority = n, else
-    2 x byte length for a literal token, else the pattern's default priority (itself checked against the Coq rule by C09)."""
+    2 x byte length for a literal token, else the documented default (Coq complexity of the HIR when given, else the
+    derive's own default, which C09 checks against the Coq rule)."""
     if len(c.attrs) != len(c.leaves):
         return None
     out = []
@@ -1392,6 +1409,8 @@ def independent_prios(c):
             out.append(int(ex))
         elif a.get('kind') == 'token' and a.get('lit') is not None:
             out.append(2 * (0 if a['lit'] == '-' else len(a['lit']) // 2))
+        elif coq_defaults is not None and (id(c), l['idx']) in coq_defaults:
+            out.append(coq_defaults[(id(c), l['idx'])])
         else:
             out.append(l['default_prio'])
     return out
@@ -1403,13 +1422,14 @@ def check_C08(tier):
     drv = build.extraction_build()
     caps = all_caps_with_dfa(tier, res, front_files())
     jobs = []
+    cdef = coq_default_prios(caps)
     for i, c in enumerate(caps):
         dfa = capmod.Dfa(c)
         H = capmod.reach_hint(dfa)
         parts = ['RH', len(H)]
         for q, (p, u, n) in sorted(H.items()):
             parts += [q, p, u, n]
-        jobs.append(engine.dfa_header(c, independent_prios(c)) + [' '.join(map(str, parts)), 'TI %d' % i])
+        jobs.append(engine.dfa_header(c, independent_prios(c, cdef)) + [' '.join(map(str, parts)), 'TI %d' % i])
     out = engine.parse_model_output(engine.run_modeldrv(drv, certs._batch(jobs)))
     ntie = 0; nacc = 0
     for i, c in enumerate(caps):
@@ -1611,7 +1631,8 @@ def check_C10(tier):
         defs.append(('SkipI%d' % i, '#[derive(Logos)] #[logos(skip(%s, ignore(case)))] enum SkipI%d { #[token("0")] Z }' % (fg.rust_str_lit(pat), i), 'skipi', dict(pat=pat)))
     # ignore(case) also covers the text that comes from a subpattern
     for i, (sub, body, pat, inl) in enumerate([('xd', '[0-9a-f]', '0x(?&xd)+', '0x(?u:[0-9a-f])+'), ('kw', 'select|from', '(?&kw) ', '(?u:select|from) '),
-                                               ('u', 'kb|mb', '[0-9]+(?&u)', '[0-9]+(?u:kb|mb)')]):
+                                               ('u', 'kb|mb', '[0-9]+(?&u)', '[0-9]+(?u:kb|mb)'),
+                                               ('kw2', 'select|from', '(?&kw2)', '(?u:select|from)'), ('hx', '[0-9a-f]+h', '(?&hx)', '(?u:[0-9a-f]+h)')]):
         defs.append(('RegSub%d' % i, '#[derive(Logos)] #[logos(subpattern %s = %s)] enum RegSub%d { #[regex(%s, ignore(case))] A, #[token("~")] Z }'
                      % (sub, fg.rust_str_lit(body), i, fg.rust_str_lit(pat)), 'regi', dict(pat=inl)))
         defs.append(('SkipSub%d' % i, '#[derive(Logos)] #[logos(subpattern %s = %s)] #[logos(skip(%s, ignore(case)))] enum SkipSub%d { #[token("~")] Z }'
@@ -1791,13 +1812,24 @@ def check_C11(tier):
         ctx = ctxs[6 + k_ - nrand] if k_ >= nrand else rng.choice(ctxs)
         p = ctx % tuple(rng.choice(refs) for _ in range(ctx.count('%s')))
         cases.append((subs, p, True))
+    # the referencing attribute's own arguments (ignore(case), priority, callback) apply to the inlined pattern as a whole:
+    # lone references, references in context, chains
+    icase_cases = set()
+    for subs, pats in [([('kw', 'select|from', True)], ['(?&kw)', '(?&kw)+', 'x(?&kw)', '(?&kw)|to']),
+                       ([('h', '[a-f]', True), ('hh', '(?&h)(?&h)', True)], ['(?&hh)', '(?&h)', '0x(?&hh)+', '(?&h)(?&hh)']),
+                       ([('w', '(?i:ab)c', True)], ['(?&w)', '(?&w)d']),
+                       ([('g', 'straße|é', True)], ['(?&g)', '(?&g)x'])]:
+        for p in pats:
+            icase_cases.add(len(cases))
+            cases.append((subs, p, True))
     defs = []
     for i, (subs, pat, strmode) in enumerate(cases):
         attrs = ''.join('#[logos(subpattern %s = %s)] ' % (n, fg.rust_str_lit(s) if isinstance(s, str) else fg.rust_bytes_lit(s)) for n, s, _ in subs)
         mode = '' if strmode else '#[logos(utf8 = false)] '
         isb = i in bytes_regex_cases
         lit = ('b' + fg.rust_str_lit(pat)) if isb else fg.rust_str_lit(pat)
-        defs.append(('Sp%d' % i, '#[derive(Logos)] %s%senum Sp%d { #[regex(%s)] A, #[token("0")] Z }' % (mode, attrs, i, lit), subs, pat, strmode, isb))
+        extra = ', ignore(case), priority = 9' if i in icase_cases else ''
+        defs.append(('Sp%d' % i, '#[derive(Logos)] %s%senum Sp%d { #[regex(%s%s)] A, #[token("0")] Z }' % (mode, attrs, i, lit, extra), subs, pat, strmode, isb))
     und = []
     for i, (subs, pat) in enumerate(C11_UNDEFINED):
         attrs = ''.join('#[logos(subpattern %s = %s)] ' % (n, fg.rust_str_lit(s)) for n, s, _ in subs)
@@ -1811,7 +1843,7 @@ def check_C11(tier):
         tosrc = lambda s: s if isinstance(s, str) else fg.regex_escape_bytes(s).replace('\\\\x', '\\x') if False else (s if isinstance(s, str) else ''.join(chr(b) if b <= 127 else '\\x%02X' % b for b in s))
         inl = py_inline([(n, tosrc(s), u) for n, s, u in subs], pat)
         if inl is not None:
-            specs.append((name, 1 if strmode else 0, 0 if isb else 1, 0, inl))
+            specs.append((name, 1 if strmode else 0, 0 if isb else 1, 1 if int(name[2:]) in icase_cases else 0, inl))
     refs = fg.refdfas(specs, 'c11')
     pairs = []
     for name, source, subs, pat, strmode, isb in defs:
@@ -1878,7 +1910,7 @@ def check_C11(tier):
 def check_C18(tier):
     import coqeval, frontgen as fg, itertools
     res = Result('C18', tier)
-    framework(res, ['C18_parse_join_items', 'C18_named_args_commute', 'C18_old_refuted', 'C18_generic_items_commute', 'C18_type_lifetime_swap', 'C18_old_generic_items_refuted'])
+    framework(res, ['C18_parse_join_items', 'C18_named_args_commute', 'C18_old_refuted', 'C18_generic_items_commute', 'C18_type_lifetime_swap', 'C18_old_generic_items_refuted', 'C18_reordered_leaves_agree'])
     rng = random.Random(seed() * 41 + 18)
     # ---- K8: the real tokenizer vs Front.AttrParser on generated attribute contents
     named = ['priority = 3', 'priority = 12', 'callback = my_cb', 'callback = |lex| lex.slice().len()', 'ignore(case)', 'allow_greedy = true',
@@ -1991,14 +2023,33 @@ def check_C18(tier):
             members.append(('P%d' % idx, src, body)); idx += 1
         if len(members) > 1:
             lgroups.append(('logos-generics', members))
-    allgroups = groups + lgroups
+    # items that reorder the skips themselves: the leaves are numbered differently, so the lexers are compared as graphs
+    # (gsim_ok, C01_bisimilar_graphs_agree) after matching the leaves by their content
+    sitems = ['skip " "', 'skip("#", priority = 9)', 'skip(r" +", count_blanks)', 'skip r"[ \\t]+"', 'skip("[a-c]+", note_abc)', 'skip("[b-d]+", priority = 3)',
+              'skip("[b-d]+x")', 'skip("\\t", priority = 3)', 'skip("#+", priority = 9, callback = hashes)', 'extras = u8', 'subpattern d = "[0-9]"']
+    sforced = [['skip(r" +", count_blanks)', 'skip r"[ \\t]+"'], ['skip("#", priority = 9)', 'skip("#+", priority = 9, callback = hashes)', 'extras = u8'],
+               ['skip " "', 'skip("[a-c]+", note_abc)', 'skip("[b-d]+", priority = 3)'], ['skip " "', 'skip("\\t", priority = 3)', 'skip r"[ \\t]+"'],
+               ['skip("[a-c]+", note_abc)', 'skip("[b-d]+x")', 'skip " "']]
+    sgroups = []
+    for it_ in range(10 if tier == 'quick' else 80):
+        sub = sforced[it_] if it_ < len(sforced) else rng.sample(sitems, rng.randint(2, 4))
+        if sum(1 for x in sub if x.startswith('skip')) < 2:
+            continue
+        members = []
+        for perm in list(itertools.permutations(sub))[:12]:
+            body = ', '.join(perm)
+            src = '#[derive(Logos)] #[logos(%s)] enum P%d { #[regex("[e-z]+")] A, #[token("0")] Z }' % (body, idx)
+            members.append(('P%d' % idx, src, body)); idx += 1
+        sgroups.append(('logos-skips', members))
+    allgroups = groups + lgroups + sgroups
     d = cache_dir('gen', 'c18-%d-%s' % (seed(), tier))
     srcp = os.path.join(d, 'c18.rs')
     open(srcp, 'w').write('\n'.join(src for _, ms in allgroups for _, src, _ in ms) + '\n')
     caps = {c.name: c for c in build.capture_files([srcp], 'c18-%d-%s' % (seed(), tier), gen=True)}
     import re as _re
     nb2 = 0
-    for kind, members in allgroups:
+    skip_order_stage(res, tier, sgroups, caps)
+    for kind, members in groups + lgroups:
         base = None
         for name, src, body in members:
             c = caps.get(name)
@@ -2020,10 +2071,117 @@ def check_C18(tier):
     res.cov['permutation_groups'] = len(allgroups)
     res.cov['rule'] = ('K8: the real AttributeParser vs Front.AttrParser.parse_all (vm_compute) on curated and random comma-joined attribute contents incl. malformed ones; '
                        'end to end: every permutation of up to 4 named arguments x {token, regex, skip(...)} x {no positional callback, label, closure} and dependency-respecting permutations of #[logos(...)] items: '
-                       'same accept/reject, same leaves, byte-identical generated code as the first order')
+                       'same accept/reject, same leaves, byte-identical generated code as the first order; permutations of the skip items themselves (which number the leaves): same accept/reject, same leaves by content, '
+                       'graphs related by gsim_ok after translating the leaf numbers (C18_reordered_leaves_agree), failing input searched with the model executor on both graphs')
     res.trusted += ['Coq kernel + vm_compute', 'hook canonical_tokens / nested_debug printers', 'lib/frontgen.py encoders']
-    res.assumptions += ['values of arguments are parsed by syn (outside the model); permutations that reorder skips change leaf numbering and are compared by C01-style equivalence elsewhere, not here']
+    res.assumptions += ['values of arguments are parsed by syn (outside the model); callbacks of permuted skips are compared by their token text']
     return res.finish('./vcheck C18 --tier ' + tier)
+
+
+def skip_order_stage(res, tier, sgroups, caps):
+    """Definitions that differ only in the order of the skip items of one #[logos(...)]: same accept/reject; when
+    accepted, the same leaves (kind, priority, pattern, callback) and, with the leaves matched, graphs related by the
+    proved bisimulation checker gsim_ok (C01_bisimilar_graphs_agree: every walk of the generated code agrees)."""
+    import types
+    drv = build.extraction_build()
+    jobs = []; meta = {}
+    nbad = 0
+
+    def sig(c, l):
+        return (l['kind'], l['prio'], l['hir'], c.leafcb.get(l['idx'], '-'))
+
+    for kind, members in sgroups:
+        base = None
+        for name, src, body in members:
+            c = caps.get(name)
+            res.count('skip_order_definitions')
+            if c is None or c.panic is not None:
+                res.violation(None, 'derive panicked on %s' % body, dict(definition=src)); nbad += 1; continue
+            if base is None:
+                base = (c, src, body); continue
+            b = base[0]
+            if c.accepted != b.accepted:
+                nbad += 1
+                res.violation(None, 'order of skip items matters: `%s` is %s, `%s` is %s (%s)' % (body, c.outcome, base[2], b.outcome, (c.cerrs or b.cerrs)[:1]),
+                              dict(definition=src, canonical_definition=base[1], errors=c.cerrs[:3], canonical_errors=b.cerrs[:3]))
+                continue
+            if not c.accepted:
+                continue
+            # match the leaves by content
+            pool = {}
+            for l in b.leaves:
+                pool.setdefault(sig(b, l), []).append(l['idx'])
+            ren = {}
+            okm = True
+            for l in c.leaves:
+                k = pool.get(sig(c, l))
+                if not k:
+                    okm = False; break
+                ren[l['idx']] = k.pop(0)
+            if not okm or len(c.leaves) != len(b.leaves):
+                nbad += 1
+                res.violation(None, 'order of skip items matters: `%s` and `%s` have different leaves' % (body, base[2]), dict(definition=src, canonical_definition=base[1]))
+                continue
+            g2 = dict(root=c.graph['root'], states={})
+            rn = lambda x: None if x is None else ren[x]
+            for sid_, st in c.graph['states'].items():
+                g2['states'][sid_] = dict(st, early=rn(st['early']), accept=rn(st['accept']))
+            c2 = types.SimpleNamespace(graph=g2, leaves=b.leaves, utf8=c.utf8, name=c.name, attrs=b.attrs, leafcb=b.leafcb, id=c.id)
+            c2.__dict__.update({k: v for k, v in b.__dict__.items() if k not in c2.__dict__ and k not in ('graph', 'dfa')})
+            tag = 'g%d' % len(meta)
+            meta[tag] = (b, c, c2, src, base[1], body, base[2])
+            lm = [ren[i] for i in range(len(c.leaves))]
+            jobs.append(engine.problem_header(b, with_dfa=False) + ['GS 0'] + engine.problem_header(c, with_dfa=False)
+                        + ['LM %d %s' % (len(lm), ' '.join(map(str, lm))), 'GG ' + tag])
+    out = engine.run_modeldrv(drv, jobs) if jobs else []
+    seen = set()
+    for ln in out:
+        if not ln.startswith('GG '):
+            continue
+        f = ln.split()
+        tag = f[1]; seen.add(tag)
+        b, c, c2, src, bsrc, body, bbody = meta[tag]
+        res.count('skip_order_graph_pairs')
+        if len(f) > 2 and f[2] == '1':
+            continue
+        nbad += 1
+        path = bytes(int(x) for x in f[3:]) if len(f) > 3 else b''
+        # look for an input on which the two lexers differ (graph executor of the model on both graphs)
+        rng = random.Random(seed())
+        cands = [path + t for t in (b'', b' ', b'e', b'  e', b'\t', b'x')] + [path[:i] for i in range(1, len(path))] + ce.make_probes(b, rng, 'quick')[:200]
+        cands = [w for w in dict.fromkeys(cands) if w and (not b.utf8 or probes_is_utf8(w))]
+        pj = []
+        for side, cc in (('a', b), ('b', c2)):
+            lines = engine.problem_header(cc, with_dfa=False)
+            for i, w in enumerate(cands):
+                lines.append('P %s%d 0 %d %s' % (side, i, len(w), ' '.join(map(str, w))))
+            pj.append(lines)
+        po = engine.run_modeldrv(drv, pj)
+        ra = {}; rb = {}
+        for l2 in po:
+            if l2.startswith('P a'):
+                ra[int(l2.split()[1][1:])] = l2.split('ref:')[1].split('|')[0].strip()
+            elif l2.startswith('P b'):
+                rb[int(l2.split()[1][1:])] = l2.split('ref:')[1].split('|')[0].strip()
+        diff = [i for i in range(len(cands)) if ra.get(i) != rb.get(i)]
+        if diff:
+            i = min(diff, key=lambda j: len(cands[j]))
+            res.violation(cands[i], 'order of skip items matters: `%s` vs `%s`: on %r the lexers differ (model executor on the two captured graphs, leaves matched by content): %s vs %s'
+                          % (body, bbody, cands[i], rb.get(i), ra.get(i)), dict(definition=src, canonical_definition=bsrc))
+        else:
+            res.violation(None, 'order of skip items matters: `%s` vs `%s`: the captured graphs are not related by gsim_ok (first unrelated pair after %r)' % (body, bbody, path),
+                          dict(definition=src, canonical_definition=bsrc, no_longer_checks='certificate gsim_ok between the two captured graphs (C01_bisimilar_graphs_agree)'), found_input=False)
+    if len(seen) != len(meta):
+        nbad += 1
+        res.violation(None, 'skip-order stage: %d of %d graph comparisons produced no verdict' % (len(meta) - len(seen), len(meta)), {}, found_input=False)
+    res.oblige(nbad == 0)
+
+
+def probes_is_utf8(w):
+    try:
+        w.decode('utf8'); return True
+    except UnicodeDecodeError:
+        return False
 
 
 def build_cli():
@@ -2051,6 +2209,7 @@ def c17_sources(rng, n):
         if rng.random() < 0.3: attrs.insert(rng.randint(0, len(attrs)), '#[derive(PartialOrd)]')
         if rng.random() < 0.5: attrs.append('#[logos(skip " +")]')
         if rng.random() < 0.3: attrs.append('#[allow(dead_code)]')
+        if rng.random() < 0.3: attrs.append(rng.choice(['#[error("lexing failed")]', '#[serde(rename_all = "snake_case")]', '#[tokens(all)]', '#[regexp]', '#[logos_like]']))
         if rng.random() < 0.35:
             # a logos attribute with several kept attributes after it (their written order must survive)
             attrs.insert(rng.randint(0, max(0, len(attrs) - 2)), '#[logos(extras = u8)]')
@@ -2061,12 +2220,13 @@ def c17_sources(rng, n):
             if rng.random() < 0.3: va.append('/// variant doc')
             va.append('#[token("t%d")]' % j if rng.random() < 0.5 else '#[regex("r%d[a-z]+")]' % j)
             if rng.random() < 0.3: va.append('#[allow(unused)]')
+            if rng.random() < 0.25: va.append(rng.choice(['#[error("bad token")]', '#[serde(rename = "v")]', '#[error(transparent)]']))
             if rng.random() < 0.2: va.append('#[regex("s%d[0-9]")]' % j)
             if rng.random() < 0.3:
                 va += ['/// first line after the pattern', '/// second line', '#[cfg(all())]'][:rng.randint(2, 3)]
             body = 'V%d' % j
             if rng.random() < 0.25:
-                body += '(%s&\'a str)' % ('#[allow(unused)] ' if rng.random() < 0.5 else '')
+                body += '(%s&\'a str)' % (rng.choice(['#[allow(unused)] ', '#[error(not(source))] ', '']))
             vs.append('    ' + '\n    '.join(va) + '\n    ' + body + ',')
         if rng.random() < 0.2:
             vs.append('    Plain,')
@@ -2165,7 +2325,7 @@ def check_C17(tier):
 C19_FRAGS_TOK = ['"a"', '"a", f', '"a", |l| 1', '"a", priority = 1', '"a", priority = 1, priority = 2', '"a", callback = f, callback = g', '"a", f, callback = g',
                  '"a", ignore(case)', '"a", ignore(case), ignore(case)', '"a", ignore()', '"a", ignore(x)', '"a", foo', '"a", foo = 1', '"a", = 1', '"a", ,', '1', 'b"\\xff"', "'c'", '', 'x y', '"a" "b"',
                  '"a", priority = -1', '"a", priority = 99999999999999999999999', '"a", allow_greedy = true', '"a", callback = |a, b| 1', '"a", callback = ', '"a", priority', '"a", ignore(case) priority = 2']
-C19_REGEXES = ['a', 'a*', 'a+', '(a|)', '', '$', 'a$', '(?m:^)a', '(?-u:\\b)a', 'a(?-u:\\b)', 'a\\b', '.*', 'a.*', '(a.*)+', '(a.+)?b', 'a(.*b)?', '[^\\n]*x', '(?s).+', 'a.*?', '.{2,}', '(.*)', '((a|.*))',
+C19_REGEXES = ['a', 'a*', 'a+', '(a|)', '', '$', 'a$', '(?m:^)a', '^a', '^#![a-z/ ]*', '\\\\Aa', '(?-u:\\b)a', 'a(?-u:\\b)', 'a\\b', '.*', 'a.*', '(a.*)+', '(a.+)?b', 'a(.*b)?', '[^\\n]*x', '(?s).+', 'a.*?', '.{2,}', '(.*)', '((a|.*))',
                '(a', '[a', 'a{2,1}', '\\1', '(?=a)', '(?<n>a)', '(?&nope)', '(?&)', '\\p{Nope}', '\\xZZ', 'a{99999}', '(a*)*', '(a+)+b', '[\\x80-\\xff]', '(?-u:\\xff)', '(?i)a', '(?x) a b']
 C19_SHAPES = ['A', 'A()', 'A(u8)', 'A(u8, u8)', 'A { x: u8 }', 'A(&\'s str)', 'A(T)']
 C19_LOGOS = ['skip " "', 'skip', 'skip("x", f)', 'skip("x", callback = f, callback = g)', 'skip(".*")', 'skip("(a.*)+")', 'extras = A', 'extras = A, extras = B', 'error = E', 'error(E, f)', 'error(E, callback = f, callback = g)',
